@@ -4,6 +4,7 @@ CONSTANTS
   MaxNotes = 6
   None = None
   Calls = {}
+  JoinWaits = TRUE
   PopFirst = TRUE
   BadClose = {1, 2, 3, 5, 8}
   GateBySubscription = FALSE
